@@ -2,9 +2,19 @@
 
 package sbi
 
-import "github.com/gin-gonic/gin"
+import (
+	"sync"
+
+	"github.com/gin-gonic/gin"
+)
 
 // VerifNewRouter exposes the unexported router constructor to the verification harness.
 func VerifNewRouter(chf ServerChf) *gin.Engine {
 	return newRouter(&Server{ServerChf: chf})
+}
+
+// VerifStartServer runs the SBI listener the way Server.Run does, without the NRF registration.
+func VerifStartServer(s *Server, wg *sync.WaitGroup) {
+	wg.Add(1)
+	go s.startServer(wg)
 }
